@@ -224,4 +224,5 @@ def check(ctx, R):
     from . import c17
     R.run("C17.a", c17.rule_a, ctx, "C03.d")
     R.run("C03.e", c17.rule_c, ctx, "C03.e")
+    R.run("C03.f", c17.rule_d, ctx, "C03.f")
     return {}
